@@ -485,6 +485,11 @@ func TestCheck(t *testing.T) {
 		addB("keytype-rsa", g.Multihash(0, g.MarshalKeyProto(0, e.pub)))
 		addB("keytype-2", g.Multihash(0, g.MarshalKeyProto(2, e.pub)))
 		addB("keytype-3", g.Multihash(0, g.MarshalKeyProto(3, e.pub)))
+		// rare / out-of-range enum values: large, negative as int32 (bit 31 set, 5-byte
+		// varint), negative as int64 (10-byte varint), wider than 32 bits
+		for _, kt := range []uint64{4, 100, 0x7fffffff, 0x80000000, 0x80000001, 0xffffffff, 0xfffffffe, 1 << 32, 1<<32 + 2, 1 << 62, 1 << 63, 1<<63 + 1, ^uint64(0), ^uint64(0) - 1} {
+			addB(fmt.Sprintf("keytype-%#x", kt), g.Multihash(0, g.MarshalKeyProto(kt, e.pub)))
+		}
 		addB("key-31", g.Multihash(0, g.MarshalKeyProto(1, e.pub[:31])))
 		addB("key-33", g.Multihash(0, g.MarshalKeyProto(1, append(append([]byte(nil), e.pub...), 7))))
 		addB("key-0", g.Multihash(0, g.MarshalKeyProto(1, nil)))
